@@ -556,6 +556,79 @@ def sc_rebase_later_file(cx):
     cx.lean_wf(r, new)
 
 
+def sc_delete_recreate_in_range(cx):
+    """a rewritten range in which one commit deletes an AI-attributed file and a later commit creates it
+    again with AI lines, replayed through the content path (the target branch touched an AI file of the
+    range): the note of the deleting commit, and of every commit until the file is back, must not
+    name the file"""
+    r = cx.repo()
+    cx.write_lines(r, "a.txt", cx.lines("a", 8))
+    cx.write_lines(r, "k.txt", cx.lines("k", 6))
+    cx.commit(r, "base")
+    r.git("checkout", "-q", "-b", "feature")
+    cx.ai_edit(r, "b.txt", "s1", n=3)
+    cx.ai_edit(r, "a.txt", "s1", n=1)
+    cx.commit(r, "f1 adds b.txt")
+    r.git("rm", "-q", "--", "b.txt")
+    cx.op("git rm b.txt")
+    cx.ai_edit(r, "k.txt", "s2", n=1)
+    cx.commit(r, "f2 deletes b.txt")
+    cx.ai_edit(r, "k.txt", "s1", n=1)
+    cx.commit(r, "f3 without b.txt")
+    cx.ai_edit(r, "b.txt", "s2", n=2 + cx.index % 2)
+    cx.commit(r, "f4 b.txt again")
+    r.git("checkout", "-q", "main")
+    cur = cx.read_lines(r, "a.txt")
+    cx.write_lines(r, "a.txt", cx.lines("main-top", 1 + cx.index % 3) + cur)
+    cx.commit(r, "m1")
+    variant = ["rebase", "rebase-forced", "cherry-pick"][cx.index % 3]
+    cx.tags.append(f"delete-recreate:{variant}")
+    if variant.startswith("rebase"):
+        r.git("checkout", "-q", "feature")
+        cx.git(r, "rebase", "main", env={"GIT_AI_VERIF_NO_FAST_PATH": "1"} if variant == "rebase-forced" else None)
+        rc, out, _ = r.plain_git("log", "--reverse", "--format=%H", "main..HEAD")
+    else:
+        rc, out, _ = r.plain_git("log", "--reverse", "--format=%H", "main..feature")
+        cx.git(r, "cherry-pick", *out.split())
+        rc, out, _ = r.plain_git("log", "--reverse", "--format=%H", "HEAD~4..HEAD")
+    cx.lean_wf(r, out.split())
+
+
+def sc_squash_authorship(cx):
+    """a squash merge made with plain git (as a forge does), whose note git-ai reconstructs afterwards
+    (`git-ai squash-authorship <base> <new> <old>`), when the target branch changed the same file: the
+    note's line numbers must exist in the squash commit's file"""
+    r = cx.repo()
+    n0 = 14 + cx.index % 5
+    cx.write_lines(r, "a.txt", cx.lines("a", n0))
+    cx.write_lines(r, "o.txt", cx.lines("o", 4))
+    cx.commit(r, "base")
+    r.git("checkout", "-q", "-b", "feature")
+    cx.ai_edit(r, "a.txt", "s1", n=2)
+    f1 = cx.commit(r, "F1")
+    if cx.index % 2:
+        cx.ai_edit(r, "o.txt", "s2", n=1)
+        f1 = cx.commit(r, "F2")
+    r.git("checkout", "-q", "main")
+    cur = cx.read_lines(r, "a.txt")
+    k = 2 + cx.index % 3
+    cx.write_lines(r, "a.txt", cur[:2] + cur[2 + k:] if cx.index % 4 < 2 else cx.lines("main-top", k) + cur)
+    cx.commit(r, "M1 changes the same file")
+    rc, out, err = r.plain_git("merge", "-q", "--squash", "feature")
+    cx.op("plain git merge --squash feature")
+    if rc != 0:
+        cx.tags.append("squash-authorship:conflict")
+        return
+    r.plain_git("commit", "-q", "-m", "Squash-merge feature (server side)")
+    s_ = r.head()
+    cx.op("plain git commit (no hooks)")
+    rc, out, err = r.ai("squash-authorship", "main", s_, f1)
+    cx.op(f"git-ai squash-authorship main {s_[:8]} {f1[:8]} rc={rc}")
+    cx.tags.append("squash-authorship")
+    cx.check(r, "squash-authorship")
+    cx.lean_wf(r, [s_])
+
+
 def sc_newline_name(cx):
     r = base_repo(cx, ["plain.txt"])
     cx.ai_edit(r, "nl\nname.txt", "s1")
@@ -581,6 +654,8 @@ SCENARIOS = {
     "git-refans-rebase": lambda cx: sc_git_refans(cx, "rebase"),
     "git-refans-cherry-pick": lambda cx: sc_git_refans(cx, "cherry-pick"),
     "rebase-later-file": sc_rebase_later_file,
+    "delete-recreate-in-range": sc_delete_recreate_in_range,
+    "squash-authorship": sc_squash_authorship,
     "large-600": lambda cx: sc_large(cx, 600),
     "newline-name": sc_newline_name,
 }
@@ -614,7 +689,7 @@ def plan(tier, seed):
     reps = 2 if tier == "quick" else 20
     jobs = []
     for name in SCENARIOS:
-        k = 1 if name in ("newline-name", "large-600") else (max(reps, 4) if name == "delete-rename" else reps)
+        k = 1 if name in ("newline-name", "large-600") else (max(reps, 4) if name in ("delete-rename", "squash-authorship") else (max(reps, 3) if name == "delete-recreate-in-range" else reps))
         for i in range(k):
             jobs.append((f"{name}#{i}", seed * 1000 + i))
     if tier == "thorough":
